@@ -22,7 +22,8 @@ REQUIRED_STRATA = {"recompute": 200, "cell": 48 * 6, "invalid-expect": 20, "samp
 EXPECTS = ("one_to_one", "many_to_one", "one_to_many", "many_to_many")
 HOWS = ("inner", "left", "full")
 VARIANTS = ("matched", "unmatched", "none", "composite", "last", "first", "triple")
-INVALID = ["one_to_one\n", "many_to_one\n", "one_to_many\n", "many_to_many\n", "\none_to_one", "one_to_one\r\n", "one_to_one\t", " many_to_many", "one_to_one\x00", b"one_to_one", "one-to-one", "ONE_TO_ONE", "", None, 1, "many_to_none", "left", True, "one_to_one ", ("one_to_one",)]
+from .. import values as _V
+INVALID = ["one_to_one\n", "many_to_one\n", "one_to_many\n", "many_to_many\n", "\none_to_one", "one_to_one\r\n", "one_to_one\t", " many_to_many", "one_to_one\x00", b"one_to_one", "one-to-one", "ONE_TO_ONE", "", None, 1, "many_to_none", "left", True, "one_to_one ", ("one_to_one",), ["one_to_one"], {"one_to_one"}, {"one_to_one": 1}, bytearray(b"one_to_one"), 10 ** 5000, _V.EqAll(), Vector(["one_to_one"]), Vector(["one_to_one", "one_to_one"]), 1.5, object()]
 
 
 def fn_of(L, how):
@@ -132,14 +133,14 @@ def judge_cell(chk, L, R, spec):
 	if should_raise:
 		if o.ok:
 			chk.fail("the call raises when a required uniqueness fails", f"cardinality/accepted/{cellname}",
-				f"{how} expect={expect} L keys {lkeys} R keys {rkeys} ({spec.get('variant')}): returned {short(J.result_rows(o.value)[1], 200)}")
+				f"{how} expect={expect} L keys {short(lkeys, 160)} R keys {short(rkeys, 160)} ({spec.get('variant')}): returned {short(J.result_rows(o.value)[1], 200)}")
 		elif not isinstance(o.exc, SerifValueError):
 			chk.fail("the violation is reported as SerifValueError", f"cardinality/wrong-exception/{cellname}/{type(o.exc).__name__}",
-				f"{how} expect={expect} L keys {lkeys} R keys {rkeys}: raised {o!r}")
+				f"{how} expect={expect} L keys {short(lkeys, 160)} R keys {short(rkeys, 160)}: raised {o!r}")
 		return
 	if not o.ok:
 		chk.fail("the call does not raise when the expectation holds", f"cardinality/spurious-rejection/{cellname}/{type(o.exc).__name__}",
-			f"{how} expect={expect} L keys {lkeys} R keys {rkeys} ({spec.get('variant')}): raised {o!r}")
+			f"{how} expect={expect} L keys {short(lkeys, 160)} R keys {short(rkeys, 160)} ({spec.get('variant')}): raised {o!r}")
 		return
 	chk.observe(o.value, "cell")
 	got = J.result_rows(o.value)[1]
@@ -153,23 +154,23 @@ def judge_cell(chk, L, R, spec):
 	sb = [None if c.schema() is None else (c.schema().kind, c.schema().nullable) for c in mm.value.cols()]
 	if J.rows_same(got, mmrows) and got and (sa != sb or o.value.column_names() != mm.value.column_names()):
 		chk.fail("an accepted call returns exactly the many_to_many result", f"cardinality/result-differs-from-many-to-many/{how}/{expect}/dtypes-or-names",
-			f"{how} expect={expect} L keys {lkeys} R keys {rkeys}: same rows but column dtypes {sa} vs {sb} / names {o.value.column_names()} vs {mm.value.column_names()}")
+			f"{how} expect={expect} L keys {short(lkeys, 160)} R keys {short(rkeys, 160)}: same rows but column dtypes {sa} vs {sb} / names {o.value.column_names()} vs {mm.value.column_names()}")
 		return
 	if not J.rows_same(got, mmrows):
 		chk.fail("an accepted call returns exactly the many_to_many result", f"cardinality/result-differs-from-many-to-many/{how}/{expect}",
-			f"{how} expect={expect} L keys {lkeys} R keys {rkeys}: {short(got, 200)} vs many_to_many {short(mmrows, 200)}")
+			f"{how} expect={expect} L keys {short(lkeys, 160)} R keys {short(rkeys, 160)}: {short(got, 200)} vs many_to_many {short(mmrows, 200)}")
 	elif (got or exp) and not J.rows_same(got, exp):
 		chk.fail("an accepted call returns the model rows", f"cardinality/result-differs-from-model/{how}/{expect}",
-			f"{how} expect={expect} L keys {lkeys} R keys {rkeys}: {short(got, 200)} vs model {short(exp, 200)}")
+			f"{how} expect={expect} L keys {short(lkeys, 160)} R keys {short(rkeys, 160)}: {short(got, 200)} vs model {short(exp, 200)}")
 
 
 def run_invalid(chk, spec):
 	L, R = common.mk_table(spec["left"]), common.mk_table(spec["right"])
 	o = call(fn_of(L, spec["how"]), R, spec["lon"], spec["ron"], expect=spec["expect"])
-	chk.judged("invalid-expect", ("invalid", spec["how"], repr(spec["expect"])))
+	chk.judged("invalid-expect", ("invalid", spec["how"], short(spec["expect"], 40) if not isinstance(spec["expect"], int) or isinstance(spec["expect"], bool) else f"int of {spec['expect'].bit_length()} bits"))
 	if o.ok:
 		chk.fail("any other expect value is always rejected", f"cardinality/invalid-expect-accepted/{spec['how']}",
-			f"{spec['how']} join with expect={spec['expect']!r} returned {short(o.value, 100)}")
+			f"{spec['how']} join with expect={short(spec['expect'], 60)} returned {short(o.value, 100)}")
 
 
 from . import c09 as _c09
@@ -224,7 +225,7 @@ RUNNERS.update({"big": run_big, "after_rejected": run_after_rejected})
 def realise(rng, lu, ru, variant, kind="int"):
 	"""key columns (1 or 2 per side) realising (left unique?, right unique?) with the duplicate placed per variant"""
 	from datetime import datetime as _dt
-	dom = {"int": [1, 2, 3, 4, 5, 6], "str": ["a", "b", "c", "d", "e", "f"], "brace": ["{id}", "user_{n}", "{}", "{0}", "{{x", "}"], "hash": [-1, 7, -2, 3, 2**61 - 1, 0],
+	dom = {"int": [1, 2, 3, 4, 5, 6], "str": ["a", "b", "c", "d", "e", "f"], "brace": ["{id}", "user_{n}", "{}", "{0}", "{{x", "}"], "hash": [-1, 7, -2, 3, 2**61 - 1, 0], "hugeint": [10 ** 5000, 10 ** 5000 + 1, -(10 ** 5000), 3, 10 ** 4400, 7],
 		"datetime": [_dt(2020, 1, 31, 5, 0), _dt(2020, 1, 31, 17, 30), _dt(2020, 1, 31, 0, 0), _dt(2020, 1, 31, 5, 0, 1), _dt(2021, 2, 28, 9, 0), _dt(2021, 2, 28, 9, 1)]}[kind]     # hash(-1) == hash(-2), hash(0) == hash(2**61-1)
 	m1, m2, lonly, ronly, lonly2, ronly2 = dom
 	if variant == "composite":
@@ -293,8 +294,8 @@ def run(chk):
 			for lu in (True, False):
 				for ru in (True, False):
 					for variant in VARIANTS:
-						for kind in ("int", "str", "hash", "datetime", "brace"):
-							if kind in ("datetime", "brace") and variant == "composite":
+						for kind in ("int", "str", "hash", "datetime", "brace", "hugeint"):
+							if kind in ("datetime", "brace", "hugeint") and variant == "composite":
 								continue
 							idx += 1
 							if not chk.mine(idx):
